@@ -40,7 +40,7 @@ struct wcall {
     uint8_t kind;
     int64_t ival;
     uint64_t dbits;
-    bool    b;
+    uint8_t b;                 /* boolean argument = b & 1 (a nondet _Bool may hold any byte under CBMC) */
     uint8_t src[SRCMAX + 1];
     size_t  len;
 };
@@ -99,7 +99,7 @@ static void ref_call(const struct wcall *cl)
     case 2: d[0] = 0x41; ref_piece(d, 1, true); break;
     case 3: d[0] = 0x42; ref_piece(d, 1, true); break;
     case 4: d[0] = 0x43; ref_piece(d, 1, true); break;
-    case 5: d[0] = cl->b ? 0x44 : 0x45; ref_piece(d, 1, true); break;
+    case 5: d[0] = (cl->b & 1) ? 0x44 : 0x45; ref_piece(d, 1, true); break;
     case 6: dsz = ref_enc_int(0x10, cl->ival, d); ref_piece(d, dsz, true); break;
     case 7: dsz = ref_enc_double(cl->dbits, d); ref_piece(d, dsz, true); break;
     case 8: case 9: case 10: {
@@ -122,7 +122,7 @@ static bool lib_call(binson_writer *w, const struct wcall *cl, uint8_t *srcobj)
     case 2: return binson_write_object_end(w);
     case 3: return binson_write_array_begin(w);
     case 4: return binson_write_array_end(w);
-    case 5: return binson_write_boolean(w, cl->b);
+    case 5: return binson_write_boolean(w, (cl->b & 1) != 0);
     case 6: return binson_write_integer(w, cl->ival);
     case 7: return binson_write_double(w, bits2d(cl->dbits));
     case 8: return binson_write_string_with_len(w, (const char *) srcobj, cl->len);
@@ -199,8 +199,10 @@ void harness(void)
     PCHECK(9, !exp_failed || w.error_flags != BINSON_ERROR_NONE, "C09 a failed sequence is detectable by one check at the end");
 #if WMODE == 1 && PROPSET == 9
     COVER(w.error_flags != BINSON_ERROR_NONE, "main: write attempted with an error latched");
+#elif WMODE == 2 && CAP > 0
+    COVER(exp_used == (size_t) CAP, "main: sequence that fills the capacity exactly");
 #elif WMODE == 2
-    COVER(exp_used == (size_t) CAP && CAP > 0, "main: sequence that fills the capacity exactly");
+    COVER(exp_used > 0 && w.error_flags == BINSON_ERROR_RANGE, "main: zero capacity overflowed");
 #elif CAP >= 10
     COVER(w.error_flags == BINSON_ERROR_NONE && exp_used <= (size_t) CAP && exp_used > IN.used0, "main: write stored");
 #else
@@ -259,9 +261,19 @@ void harness(void)
     int  last_name[KCALLS + 1];                         /* index of the previous name call at this level or -1 */
     bool is_name[KCALLS];
     EXACT_ARRAY(uint8_t, srcs, KCALLS * (SRCMAX + 1));
+    struct wcall calls[KCALLS];
     for (unsigned k = 0; k < KCALLS; k++) {
-        struct wcall cl = IN.call[k];
-        cl.kind = WOPS[k];
+        calls[k] = IN.call[k];
+        calls[k].kind = WOPS[k];
+#ifdef RT_FIXLEN
+        /* lengths are fixed by the position in the shape, contents stay symbolic: keeps the length bytes of the
+           output concrete so that the parse-back has concrete control flow */
+        if (calls[k].kind == 8 || calls[k].kind == 9) calls[k].len = (k % 3 == 0) ? 2 : ((k % 3 == 1) ? 1 : 0);
+        if (calls[k].len > SRCMAX) calls[k].len = SRCMAX;
+#endif
+    }
+    for (unsigned k = 0; k < KCALLS; k++) {
+        struct wcall cl = calls[k];
         is_name[k] = false;
         uint8_t *src = srcs + k * (SRCMAX + 1);
         for (size_t i = 0; i < SRCMAX + 1; i++) src[i] = cl.src[i];
@@ -269,7 +281,7 @@ void harness(void)
         if (cl.kind == 8 && sp > 0 && ctx[sp - 1] == 1 && expect_name[sp - 1]) {
             is_name[k] = true;
             if (last_name[sp - 1] >= 0) {
-                const struct wcall *pv = &IN.call[last_name[sp - 1]];
+                const struct wcall *pv = &calls[last_name[sp - 1]];
                 /* names strictly ascending */
                 bool lt = false, decided = false;
                 for (size_t i = 0; i < SRCMAX; i++) {
@@ -314,7 +326,7 @@ void harness(void)
     unsigned dsp = 0; uint8_t dctx[KCALLS + 1];
     int pending_name = -1;
     for (unsigned k = 0; k < KCALLS; k++) {
-        const struct wcall *cl = &IN.call[k];
+        const struct wcall *cl = &calls[k];
         uint8_t kind = WOPS[k];
         if (is_name[k]) { pending_name = (int) k; continue; }
         if (kind == 2 || kind == 4) {
@@ -327,7 +339,7 @@ void harness(void)
             CHECK(binson_parser_next(&p), "C05 decode: the value that was written is there");
             if (pending_name >= 0) {
                 bbuf *nm = binson_parser_get_name(&p);
-                const struct wcall *nc = &IN.call[pending_name];
+                const struct wcall *nc = &calls[pending_name];
                 CHECK(nm != NULL && nm->bsize == nc->len, "C05 decode: name length equals the written name");
                 if (nm != NULL) for (size_t i = 0; i < SRCMAX; i++) if (i < nc->len) CHECK(nm->bptr[i] == nc->src[i], "C05 decode: name bytes equal the written name");
                 pending_name = -1;
@@ -336,7 +348,7 @@ void harness(void)
         switch (kind) {
         case 1: CHECK(binson_parser_go_into_object(&p), "C05 decode: written object can be entered"); dctx[dsp++] = 1; break;
         case 3: CHECK(binson_parser_go_into_array(&p), "C05 decode: written array can be entered"); dctx[dsp++] = 2; break;
-        case 5: CHECK(binson_parser_get_type(&p) == BINSON_TYPE_BOOLEAN && binson_parser_get_boolean(&p) == cl->b, "C05 decode: boolean equals the written value"); break;
+        case 5: CHECK(binson_parser_get_type(&p) == BINSON_TYPE_BOOLEAN && binson_parser_get_boolean(&p) == ((cl->b & 1) != 0), "C05 decode: boolean equals the written value"); break;
         case 6: CHECK(binson_parser_get_type(&p) == BINSON_TYPE_INTEGER && binson_parser_get_integer(&p) == cl->ival, "C05 decode: integer equals the written value"); break;
         case 7: { double d = binson_parser_get_double(&p); uint64_t u; memcpy(&u, &d, 8);
                   CHECK(binson_parser_get_type(&p) == BINSON_TYPE_DOUBLE && u == cl->dbits, "C05 decode: double bits equal the written value"); break; }
